@@ -675,4 +675,59 @@ example :
     ((Stack.sliceFrames ⟨0, 4, 1, ⟨0, 1, 0, 1⟩⟩ none none (some 2)).toOption.map fun s' => exportPages s' f)
       = some (.ok [⟨10, 35, 8, [[0]]⟩, ⟨35, 60, 8, [[2]]⟩]) := by decide
 
+/-! ## The exposure survives the float64 `"Exposure time (ms)"` key -/
+
+/-- `export_tiff` writes `(stop − start) · 1e-6` as a double, the reader takes `int(np.round(1e6 · x))`: for every
+    exposure up to `10^15` ns (11.5 days; negative ones too) the reader gets back exactly the exported number of
+    nanoseconds — three double roundings (the literal `1e-6`, two products) cannot move the value by half a ns. -/
+theorem exposure_roundtrip (e : Int) (h : e.natAbs ≤ 10 ^ 15) : exposureNs (exposureMs e) = e :=
+  exposure_roundtrip_core e h
+
+example : (12800000 : Int).natAbs ≤ 10 ^ 15 := by decide
+example : exposureNs (exposureMs 12800000) = 12800000 := by decide +kernel
+
+/-- A bound is necessary (kernel-checked witness, a TEST of one input): at 2.25·10^15 ns the key loses a nanosecond. -/
+theorem exposure_bound_needed : exposureNs (exposureMs 2252445244112521) ≠ 2252445244112521 := by decide +kernel
+
+/-- The number written behind `"Exposure time (ms)"` is the exposure in ms to a relative `2^-51`, for every exposure
+    that is a double (`< 2^53` ns). -/
+theorem exposure_ms_close (e : Int) (h : e.natAbs < 2 ^ 53) :
+    |exposureMs e * 1000000 - e| ≤ |(e : Rat)| * (1 / 2251799813685248) :=
+  exposure_ms_close_core e h
+
+example : (9007199254740991 : Int).natAbs < 2 ^ 53 := by decide
+
+/-- `exposure_times` of `export_tiff`: one value per range, and reading each back gives `stop − start`. -/
+theorem exposure_times_roundtrip (ranges : List (Int × Int)) (h : ∀ r ∈ ranges, (r.2 - r.1).natAbs ≤ 10 ^ 15) :
+    (exposureTimesMs ranges).length = ranges.length ∧
+      (exposureTimesMs ranges).map exposureNs = ranges.map fun r => r.2 - r.1 := by
+  unfold exposureTimesMs
+  refine ⟨List.length_map _, ?_⟩
+  rw [List.map_map]
+  apply List.map_congr_left
+  intro r hr
+  exact exposure_roundtrip _ (h r hr)
+
+example : ∀ r ∈ [((10 : Int), (15 : Int)), (20, 27)], (r.2 - r.1).natAbs ≤ 10 ^ 15 := by decide
+
+/-- Fixed point THROUGH the float key: what the reader reconstructs from the written doubles (`readBackF`) is
+    exported again as the same pages — pixels, DateTime tags, exposures — when every exposure is at most `10^15` ns. -/
+theorem reexport_fixed_point_float {α} (out : List (OutPage α)) (H W : Nat) (hne : out ≠ []) (hu : Uniform out H W)
+    (hexp : ∀ o ∈ out, o.exposure.natAbs ≤ 10 ^ 15) :
+    exportPages (Stack.ofFile (readBackF out)) (readBackF out) = .ok out := by
+  rw [readBackF_eq out hexp]
+  exact reexport_fixed_point out H W hne hu
+
+example :
+    let out : List (OutPage Int) := [⟨10, 20, 5, [[4, 5]]⟩, ⟨20, 35, 7, [[10, 11]]⟩]
+    exportPages (Stack.ofFile (readBackF out)) (readBackF out) = .ok out := by decide +kernel
+
+/-- Export, reopen through the float key, export again: the second file equals the first. -/
+theorem reexport_after_export_float {α} (s : Stack) (f : File α) (H W : Nat) (hf : f.Shaped H W)
+    (hr : s.roi.Within H W) (out : List (OutPage α)) (h : exportPages s f = .ok out)
+    (hexp : ∀ o ∈ out, o.exposure.natAbs ≤ 10 ^ 15) :
+    exportPages (Stack.ofFile (readBackF out)) (readBackF out) = .ok out := by
+  obtain ⟨hu, hne⟩ := export_uniform s f H W hf hr out h
+  exact reexport_fixed_point_float out _ _ hne hu hexp
+
 end Verif.C18
